@@ -935,6 +935,66 @@ fn build_extra(thorough: bool) -> Vec<Doc> {
         }
     }
 
+    // ---- single records larger than a BGZF block (read_exact of such a record takes the BGZF reader's
+    //      direct-to-caller-buffer path), between small records; `big` documents
+    {
+        // the direct path needs >= 64 KiB still to be read at a block boundary, i.e. a record of more than two blocks
+        let lens: &[usize] = if thorough { &[100_000, 200_000] } else { &[100_000] };
+        for &n in lens {
+            let set = ok("big-record sam", records::parse_sam(&records::big_record_sam_text(&[n])));
+            let file = write_bam(&set, 1000);
+            let d = make_doc(Format::Bam, format!("big-bam-read-{n}"), "big-record", file, true);
+            let mut r = make_raw_doc(Format::Bam, format!("big-bamraw-read-{n}"), "big-record", d.inner.as_ref().unwrap().bytes.to_vec());
+            r.big = true;
+            r.equiv_of = Some(d.name.clone());
+            out.push(d);
+            out.push(r);
+        }
+        // SAM.gz lines > 64 KiB (35 000 bases + qualities) and > 128 KiB (70 000)
+        for &n in (if thorough { &[35_000usize, 70_000][..] } else { &[35_000usize][..] }) {
+            let set = ok("big-line sam", records::parse_sam(&records::big_record_sam_text(&[n])));
+            out.push(make_doc(Format::SamGz, format!("big-samgz-line-{n}"), "big-record", write_sam_gz(&set, 0), true));
+        }
+        // BCF record / VCF.gz line > 64 KiB (> 128 KiB in thorough)
+        for &n in (if thorough { &[70_000usize, 140_000][..] } else { &[140_000usize][..] }) {
+            let set = ok("big-record vcf", records::parse_vcf(&records::big_record_vcf_text(&[n])));
+            let d = make_doc(Format::Bcf, format!("big-bcf-record-{n}"), "big-record", write_bcf(&set, 1000), true);
+            let mut r = make_raw_doc(Format::Bcf, format!("big-bcfraw-record-{n}"), "big-record", d.inner.as_ref().unwrap().bytes.to_vec());
+            r.big = true;
+            r.equiv_of = Some(d.name.clone());
+            out.push(d);
+            out.push(r);
+            out.push(make_doc(Format::VcfGz, format!("big-vcfgz-line-{n}"), "big-record", write_vcf_gz(&set, 0), true));
+        }
+        // FASTQ / FASTA with a line > 64 KiB: plain, and as BGZF payload
+        {
+            let seq = records::filler(70_000, 3).into_bytes().iter().map(|b| b"ACGT"[(*b as usize) % 4]).collect::<Vec<u8>>();
+            let qual = records::filler(70_000, 4).into_bytes();
+            let mut w = fastq::io::Writer::new(Vec::new());
+            for (n, sq, q) in [("r0", &b"ACGT"[..], &b"IIII"[..]), ("long", &seq[..], &qual[..]), ("r2", &b"GG"[..], &b"II"[..])] {
+                ok("fastq record", w.write_record(&fastq::Record::new(fastq::record::Definition::new(n, ""), sq, q)));
+            }
+            let fq = w.into_inner();
+            out.push(make_doc(Format::Fastq, "big-fastq-longline", "big-record", fq.clone(), true));
+            out.push(make_doc(Format::Bgzf, "big-bgzf-fastq-longline", "big-record", bgzf_payload_doc(&fq, &[], None), true));
+            let mut w = fasta::io::writer::Builder::default().set_line_base_count(NonZero::new(100_000).unwrap()).build_from_writer(Vec::new());
+            for (n, sq) in [("sq0", &b"ACGT"[..]), ("long", &seq[..]), ("sq2", &b"GG"[..])] {
+                ok("fasta record", w.write_record(&fasta::Record::new(fasta::record::Definition::new(n, None), fasta::record::Sequence::from(sq.to_vec()))));
+            }
+            out.push(make_doc(Format::Fasta, "big-fasta-longline", "big-record", w.into_inner(), true));
+        }
+    }
+
+    // ---- record orders that alternate rich and minimal records (reused record buffers must keep nothing)
+    {
+        let set = ok("reuse sam", records::parse_sam(&records::reuse_sam_text()));
+        out.push(make_doc(Format::Sam, "reuse-sam", "reuse", write_sam_plain(&set), false));
+        out.push(make_doc(Format::Bam, "reuse-bam", "reuse", write_bam(&set, 2), false));
+        let set = ok("reuse vcf", records::parse_vcf(&records::reuse_vcf_text()));
+        out.push(make_doc(Format::Vcf, "reuse-vcf", "reuse", write_vcf(Vec::new(), &set, |_, _| Ok(())), false));
+        out.push(make_doc(Format::Bcf, "reuse-bcf", "reuse", write_bcf(&set, 2), false));
+    }
+
     // ---- text without a final newline
     for n in ["sam-mapped", "vcf-sites", "fasta-w60", "fastq-simple", "gff-directives-escapes", "gtf-basic", "bed3", "fai-of-fasta-w60"] {
         let d0 = get(n);
